@@ -30,6 +30,10 @@ def try_(f):
         return ("err", core.exc_name(e))
 
 
+def finite(*us):
+    return all(math.isfinite(u.base_value) and u.base_value != 0 and 1e-290 < abs(u.base_value) < 1e290 for u in us)
+
+
 def same_unit(a, b):
     """denote the same unit: ==, and identical expression"""
     return a == b and a.expr == b.expr and a.dimensions == b.dimensions
@@ -188,7 +192,9 @@ def run(tier, seed):
         chk.case(("triple", a, b, c))
         chk.count("triple")
         l, r = (u * v) * w, u * (v * w)
-        if not (same_unit(l, r) and hash(l) == hash(r) and math.isclose(l.base_value, r.base_value, rel_tol=1e-12)):
+        if not finite(l, r, u * v, v * w):
+            chk.count("overflow-skipped")
+        elif not (same_unit(l, r) and hash(l) == hash(r) and math.isclose(l.base_value, r.base_value, rel_tol=1e-12)):
             chk.fail("assoc", "(u*v)*w != u*(v*w)", {"python": snippet(hdr + "l = (u*v)*w; r = u*(v*w)\nassert l == r and l.expr == r.expr and hash(l) == hash(r), (l, r)\n")})
         p, q = rng.choice(exps), rng.choice(exps)
         style = rng.choice(["rational", "float", "trunc"])
@@ -197,14 +203,22 @@ def run(tier, seed):
         pqa, pqs = as_arg(p * q, style if style != "trunc" else "float")
         chk.count("pow:" + style)
         l, r = (u ** pa) ** qa, u ** pqa
-        if not (same_unit(l, r) and math.isclose(l.base_value, r.base_value, rel_tol=1e-9)):
+        if not finite(l, r, u ** pa):
+            chk.count("overflow-skipped")
+        elif not (same_unit(l, r) and math.isclose(l.base_value, r.base_value, rel_tol=1e-9)):
             chk.fail(f"pow-pow|{style}", "(u**p)**q != u**(p*q)", {"python": snippet(hdr + f"l = (u**{ps})**{qs}; r = u**{pqs}\nassert l == r and l.expr == r.expr, (l, r)\n")})
         l, r = (u * v) ** pa, u ** pa * v ** pa
-        if not (same_unit(l, r) and math.isclose(l.base_value, r.base_value, rel_tol=1e-9)):
+        if not finite(l, r, u * v, u ** pa, v ** pa):
+            chk.count("overflow-skipped")
+        elif not (same_unit(l, r) and math.isclose(l.base_value, r.base_value, rel_tol=1e-9)):
             chk.fail(f"mul-pow|{style}", "(u*v)**p != u**p * v**p", {"python": snippet(hdr + f"l = (u*v)**{ps}; r = u**{ps}*v**{ps}\nassert l == r and l.expr == r.expr, (l, r)\n")})
         # scale/dimension homomorphism for powers
         up = u ** pa
-        if not (core.close(up.base_value, u.base_value ** float(p), 1e-9) and up.dimensions == u.dimensions ** sympy.Rational(p.numerator, p.denominator)):
+        try:
+            want_scale = u.base_value ** float(p)
+        except OverflowError:
+            want_scale = float("inf")
+        if finite(up) and not (core.close(up.base_value, want_scale, 1e-9) and up.dimensions == u.dimensions ** sympy.Rational(p.numerator, p.denominator)):
             chk.fail(f"hom-pow|{style}", "scale/dimension of u**p is not scale**p / dim**p", {"python": snippet(hdr + f"up = u**{ps}\nassert math.isclose(up.base_value, u.base_value**{float(p)!r}, rel_tol=1e-9)\n")})
         if not a.startswith("reg:"):
             try:
